@@ -30,7 +30,9 @@ def tlbTypes : List (String × Codec) := [
   ("ValidatorInfo", validatorInfo), ("KeyExtBlkRef", keyExtBlkRef), ("KeyMaxLt", keyMaxLt),
   ("OldMcBlocksInfo", oldMcBlocksInfo), ("Counters", counters), ("CreatorStats", creatorStats),
   ("BlockCreateStats", blockCreateStats), ("ConfigParams", configParams), ("McStateExtra", mcStateExtra),
-  ("McBlockExtra", mcBlockExtra), ("ShardFees", shardFees), ("ShardStateUnsplit", shardStateUnsplit), ("ShardState", shardState), ("BlockExtra", blockExtra), ("Block", block)]
+  ("McBlockExtra", mcBlockExtra), ("ShardFees", shardFees), ("ShardStateUnsplit", shardStateUnsplit), ("ShardState", shardState), ("BlockExtra", blockExtra), ("Block", block),
+  -- `^(Message Any)` as the parsers meet it (Message closes its cell, so it is exercised through a reference)
+  ("MessageRef", ref message)]
 
 def jsonStr (s : String) : String := "\"" ++ s ++ "\""
 
@@ -63,6 +65,79 @@ def cellsOfDag (nodes : List (Int × Bits × List Nat)) : Array (Option Tlb.Cell
   nodes.foldl (fun acc (kind, bits, refs) =>
     let kids : Option (List Tlb.Cell) := refs.mapM (fun i => (acc[i]?).join)
     acc.push (kids.map (fun ks => Tlb.Cell.mk (kind != -1) bits ks))) #[]
+
+/-- a read trace as one token: `u64` `i8` `b256` `c1` `v4.12` (kind, width; VarUInteger: prefix width . total width),
+    `(` `)` = enter / leave a reference, `r` = raw reference, `<name` `>` = field / constructor markers -/
+def showEv : Ev → String
+  | .rd k w => if k.startsWith "v" then s!"{k}.{w}" else s!"{k}{w}"
+  | .enter => "("
+  | .leave => ")"
+  | .rawref => "r"
+  | .push n => "<" ++ n
+  | .pop => ">"
+
+def showTrace (t : List Ev) : String := if t.isEmpty then "-" else ",".intercalate (t.map showEv)
+
+/-- `v` encoded + random trailer, printed in the `tlbgen` answer format, followed by the read trace and the result of
+    replaying the trace on the encoding (1 = consumes exactly the encoding; `c16_trace_accounts_for_encoding`) -/
+def emitValue (c : Codec) (v : Val) (g1 : StdGen) : String × StdGen :=
+    match c.enc v with
+    | none => ("unenc " ++ showVal v, g1)
+    | some f =>
+      if f.bits.length > 1023 ∨ f.refs.length > 4 then ("unenc " ++ showVal v, g1) else
+      let ((tb, tr), g2) := (do
+        let nb ← gNat 0 (min 19 (1023 - f.bits.length))
+        let tb ← gBits nb
+        let nr ← gNat 0 (min 2 (4 - f.refs.length))
+        let tr := (List.range nr).map (fun i => Tlb.Cell.mk false (natToBits 9 (300 + i)) [])
+        pure (tb, tr) : Gen (Bits × List Tlb.Cell)).run g1
+      let top := Tlb.Cell.mk false (f.bits ++ tb) (f.refs ++ tr)
+      let (nodes, _) := flattenCell top #[]
+      let rt := match c.dec ⟨f.bits ++ tb, f.refs ++ tr⟩ with
+        | some (v', k) => showVal v' == showVal v && k.bits == tb && k.refs.length == tr.length
+        | none => false
+      let t := c.trace v
+      let rp := match replay t [⟨f.bits ++ tb, f.refs ++ tr⟩] with
+        | some [k] => k.bits == tb && k.refs.length == tr.length
+        | _ => false
+      (s!"ok {showVal v} {"|".intercalate nodes.toList} {showBits tb} {tr.length} {if rt then 1 else 0} {showTrace t} {if rp then 1 else 0}", g2)
+
+/-- `tlbgent <Type> <seed>` : `tlbgen` (same value for the same seed) + read trace -/
+def handleGenT (ty seedS : String) : String :=
+  match tlbTypes.lookup ty, seedS.toNat? with
+  | some c, some seed =>
+    let (v, g1) := c.gen.run (mkStdGen seed)
+    (emitValue c v g1).1
+  | _, _ => "bad-op"
+
+/-- `tlbpaths <Type> <seed> <cap> <mode>` → `ok <n> <more> ;<value 1>;<value 2>…` : one generated value per PATH of the
+    schema term (mode `full`: all nested types enumerated; mode `loc`: nested named types sampled), at most `cap`;
+    `more` = 1 when there are more than `cap` paths. Each value in the `tlbgent` answer format. -/
+def handlePaths (ty seedS capS mode : String) : String :=
+  match tlbTypes.lookup ty, seedS.toNat?, capS.toNat? with
+  | some c, some seed, some cap =>
+    let m : PMode := { cap := cap + 1, loc := mode == "loc", nested := false }
+    let (vs, g1) := (c.paths m).run (mkStdGen seed)
+    let more := vs.length > cap
+    let vs := vs.take cap
+    let (outs, _) := vs.foldl (fun (st : List String × StdGen) v =>
+      let (s, g) := emitValue c v st.2
+      (s :: st.1, g)) ([], g1)
+    s!"ok {vs.length} {if more then 1 else 0} ;" ++ ";".intercalate outs.reverse
+  | _, _, _ => "bad-op"
+
+/-- `tlbtrace <Type> <dag> <node>` → `ok <value json> <remaining bits> <remaining refs> <trace>` : the spec decoder's value of
+    a cell and the read trace of that value -/
+def handleTrace (ty dag node : String) : String :=
+  match tlbTypes.lookup ty, (dag.splitOn "|").mapM parseNode, node.toNat? with
+  | some c, some nodes, some ni =>
+    match ((cellsOfDag nodes)[ni]?).join with
+    | none => "err"
+    | some cell =>
+      match c.dec ⟨cell.bits, cell.refs⟩ with
+      | some (v, k) => s!"ok {showVal v} {showBits k.bits} {k.refs.length} {showTrace (c.trace v)}"
+      | none => "err"
+  | _, _, _ => "bad-op"
 
 /-- `tlbgen <Type> <seed>` → `ok <value json> <dag> <trailer bits> <trailer refs>` : a generated value, the cell
     holding its spec encoding followed by a known trailer (root = last node), or `unenc <value json>` -/
@@ -106,6 +181,9 @@ namespace Tlb
 def handle? (op : String) (args : List String) : Option String :=
   match op, args with
   | "tlbgen", [ty, seed] => some (handleGen ty seed)
+  | "tlbgent", [ty, seed] => some (handleGenT ty seed)
+  | "tlbpaths", [ty, seed, cap, mode] => some (handlePaths ty seed cap mode)
+  | "tlbtrace", [ty, dag, node] => some (handleTrace ty dag node)
   | "tlbdec", [ty, dag, node] => some (handleDec ty dag node)
   | "tlbtypes", [] => some ("ok " ++ " ".intercalate (tlbTypes.map (·.1)))
   | _, _ => none
